@@ -77,6 +77,7 @@ def parseList {α : Type} (f : String → Option α) (s : String) : Option (List
 def parseErr : String → Option VmErr
   | "ok" => some .ok
   | "vm" => some .vm
+  | "vmlate" => some .vmlate
   | "system" => some .system
   | "timeout" => some .system
   | "negfee" => some .negfee
@@ -108,14 +109,18 @@ def parseGov : List String → Option GovOp
 def parseTx : List String → Option Tx
   | ty :: s :: r :: amt :: n :: gl :: pl :: na :: rest => do
     let type ← parseType ty
-    let sender ← s.toNat?
+    -- "<resolved sender>" or "<resolved sender>/<name>": the account field is that name
+    let (sender, acctName) ← match s.splitOn "/" with
+      | [a] => a.toNat?.map (fun a => (a, (none : Option Nat)))
+      | [a, n] => do pure ((← a.toNat?), some (← n.toNat?))
+      | _ => none
     let recipient ← optAddr r
     let amount ← amt.toNat?
     let nonce ← n.toNat?
     let gasLimit ← gl.toNat?
     let payloadLen ← pl.toNat?
     let newAddr ← na.toNat?
-    let base : Tx := { type, sender, recipient, amount, nonce, gasLimit, payloadLen, newAddr }
+    let base : Tx := { type, sender, recipient, amount, nonce, gasLimit, payloadLen, newAddr, acctName }
     if type = .governance then
       -- the enterprise contract is not modelled
       if recipient = some aEnterprise then none else
